@@ -220,7 +220,8 @@ func (r *Reader) eachByte(b byte) {
 				}
 			*/
 			r.state = readerStateClean
-			if r.HandleSysex {
+			// a sysex that is larger than the buffer is dropped
+			if r.HandleSysex && r.sysexlen < len(r.sysexBf) {
 				r.sysexBf[r.sysexlen] = b
 				r.sysexlen++
 				//go
@@ -247,6 +248,13 @@ func (r *Reader) eachByte(b byte) {
 		}
 
 		if r.HandleSysex {
+			if r.sysexlen >= len(r.sysexBf) {
+				// the sysex is larger than the buffer: drop it and skip the rest of its data
+				r.sysexBf = nil
+				r.sysexlen = 0
+				r.state = readerStateWithinUnknown
+				return
+			}
 			r.sysexBf[r.sysexlen] = b
 			r.sysexlen++
 		}
